@@ -38,6 +38,7 @@ typedef struct {
 	void *(*fn)(void *);
 	void *arg;
 	int joined;
+	int harness;              /* created by vs_spawn (slot may be reused once joined) */
 	int is_early;             /* TIMER waits may be woken early */
 	int held[VS_MAXL]; uint8_t heldmode[VS_MAXL]; int nheld;   /* heldmode: 1 exclusive (mutex / write lock), 2 shared (read lock) */
 	int kind;                 /* kind of pending operation (for cp records) */
@@ -391,10 +392,13 @@ static void *trampoline(void *p) {
 	futex_wake(&th[t].go);
 	return NULL;
 }
-static int spawn(void *(*fn)(void *), void *arg) {
-	if (nth >= VS_MAXT) vs_abort("unmodelled", "too many threads");
-	int tid = nth++;
-	memset(&th[tid], 0, sizeof th[tid]);
+static int spawn(void *(*fn)(void *), void *arg, int harness) {
+	int tid = -1;
+	/* a harness thread that has finished and been joined by the harness leaves a slot that can be used again (library
+	 * threads never: their virtual handles must stay distinguishable for the stale-join ledger) */
+	if (harness) for (int t = 1; t < nth; t++) if (th[t].harness && th[t].state == TS_DONE && th[t].joined && th[t].nheld == 0) { tid = t; break; }
+	if (tid < 0) { if (nth >= VS_MAXT) vs_abort("unmodelled", "too many threads"); tid = nth++; }
+	memset(&th[tid], 0, sizeof th[tid]); th[tid].harness = harness;
 	th[tid].state = TS_RUNNABLE; th[tid].fn = fn; th[tid].arg = arg;
 	th[tid].is_early = (cfg.early_fn && fn == cfg.early_fn);
 	struct targ *a = malloc(sizeof *a); a->tid = tid;
@@ -405,7 +409,7 @@ static int spawn(void *(*fn)(void *), void *arg) {
 	reschedule();
 	return tid;
 }
-int vs_spawn(void *(*fn)(void *), void *arg) { return spawn(fn, arg); }
+int vs_spawn(void *(*fn)(void *), void *arg) { return spawn(fn, arg, 1); }
 void vs_join_tid(int tid) {
 	if (th[tid].joined) { vs_event("double-join t%d", tid); return; }
 	th[self_id].kind = VS_K_JOIN; th[self_id].state = TS_JOIN; th[self_id].want = tid;
@@ -483,7 +487,7 @@ int __wrap_pthread_rwlock_unlock(pthread_rwlock_t *m) {
 int __wrap_pthread_create(pthread_t *h, const pthread_attr_t *a, void *(*fn)(void *), void *arg) {
 	if (!active || self_id < 0) return __real_pthread_create(h, a, fn, arg);
 	(void) a;
-	int tid = spawn(fn, arg);
+	int tid = spawn(fn, arg, 0);
 	*h = (pthread_t) (VHANDLE_BASE + (unsigned long) tid);
 	return 0;
 }
